@@ -247,10 +247,7 @@ impl Model {
             (Ty::Struct(s), V::Inst(t, _)) => s == t,
             (Ty::Satisfying(f), x) => {
                 let r = self.call_func(f, vec![x.clone()])?;
-                match truthy(&r) {
-                    Some(b) => b,
-                    None => return unknown("truthiness of lazy stream"),
-                }
+                self.truthy(&r)?
             }
             // NB: `rational` as a type never matches (is_type has no arm for it)
             _ => false,
@@ -296,10 +293,20 @@ impl Model {
     // -----------------------------------------------------------------------------------------
     // evaluation
 
-    pub fn truthy(&self, v: &V) -> R<bool> {
+    pub fn truthy(&mut self, v: &V) -> R<bool> {
         match truthy(v) {
             Some(b) => Ok(b),
-            None => unknown("truthiness of lazy stream"),
+            None => match v {
+                // a lazily derived stream is empty iff iteration yields nothing
+                V::Stream(s) => {
+                    if Model::stream_is_infinite(s) {
+                        unknown("truthiness of lazily derived infinite stream")
+                    } else {
+                        Ok(!self.force_stream_quiet(&s.clone())?.is_empty())
+                    }
+                }
+                _ => unknown("truthiness"),
+            },
         }
     }
 
@@ -839,6 +846,22 @@ impl Model {
         }
     }
 
+    /// for consumers that do not propagate an error met while skipping or counting elements (the
+    /// implementation's behaviour there is unspecified): the model declines instead of guessing
+    fn stream_next_quiet(&mut self, s: &StreamV) -> R<Option<(V, StreamV)>> {
+        match self.stream_next(s) {
+            Err(Ctl::Throw(_)) => unknown("error inside a lazy callback while skipping/counting elements"),
+            x => x,
+        }
+    }
+
+    pub fn force_stream_quiet(&mut self, s: &StreamV) -> R<Vec<V>> {
+        match self.force_stream(s) {
+            Err(Ctl::Throw(_)) => unknown("error inside a lazy callback while skipping/counting elements"),
+            x => x,
+        }
+    }
+
     pub fn stream_is_infinite(s: &StreamV) -> bool {
         match s {
             StreamV::Fin(_) => false,
@@ -1042,7 +1065,7 @@ impl Model {
                     None if lo >= 0 => {
                         let mut cur = s.clone();
                         for _ in 0..lo {
-                            match self.stream_next(&cur)? {
+                            match self.stream_next_quiet(&cur)? {
                                 Some((_, rest)) => cur = rest,
                                 None => break,
                             }
@@ -1054,7 +1077,7 @@ impl Model {
                         let mut out = Vec::new();
                         let mut done = false;
                         for _ in 0..lo {
-                            match self.stream_next(&cur)? {
+                            match self.stream_next_quiet(&cur)? {
                                 Some((_, rest)) => cur = rest,
                                 None => {
                                     done = true;
